@@ -209,3 +209,39 @@ def optional_argument(a, b=None):  # MUTATES: a, b
     if b is None:
         b = a
     b.append(1)
+
+
+# ---- ownership samples (check_owned): `# SHARES: attr, ...` lists the attributes whose object may be the caller's own
+class KeepsCopies(object):  # SHARES:
+    def __init__(self, args, hooks=()):
+        self.args = dict(args)
+        self.hooks = list(hooks)
+
+
+class KeepsGiven(object):  # SHARES: args
+    def __init__(self, args, hooks=()):
+        self.args = args
+        self.hooks = list()
+
+
+class KeepsGivenUnlessEmpty(object):  # SHARES: args
+    def __init__(self, args, hooks=()):
+        self.args = args or {}
+        self.hooks = [h for h in hooks]
+
+
+class KeepsGivenOnOnePath(object):  # SHARES: hooks
+    def __init__(self, args, hooks=None):
+        self.args = {k: v for k, v in args.items()}
+        if hooks is None:
+            hooks = []
+        self.hooks = hooks
+
+
+class CopiesInHelper(object):  # SHARES:
+    def __init__(self, args, hooks=()):
+        self._set(args)
+        self.hooks = sorted(hooks)
+
+    def _set(self, a):
+        self.args = a.copy()
